@@ -960,6 +960,8 @@ def heck_result(vm, name, arg):
         key = (name, arg.sexpr())
     if key not in memo:
         memo[key] = z3.String(f'{name}({key[1][:40]})#{len(memo)}')
+        # remember what the fresh variable was computed from (dataflow queries of kernels: `sources_of`)
+        vm.__dict__.setdefault('derived_from', {})[memo[key].sexpr()] = arg
     return memo[key]
 
 
@@ -990,6 +992,67 @@ def s_string_push_str(vm, st, callee, args, dest, ret_bb, m):
         new = StrV(z3.Concat(cur.z(), add.z()))
     vm.store(st, args[0], new)
     return done(vm, st, dest, ret_bb, UNIT)
+
+
+def _sort_key(vm, st, v):
+    v = deref(vm, st, v)
+    if isinstance(v, Opaque) and v.tag == 'ident':
+        v = StrV(v.data)
+    if isinstance(v, StrV):
+        return v
+    raise Unsupported(f'sort of {v!r}')
+
+
+def s_slice_sort(vm, st, callee, args, dest, ret_bb, m):
+    """<[T]>::sort / sort_unstable for short slices of strings / idents: one successor state per permutation, constrained
+    by the lexicographic order of the keys (z3 `str.<=`); equal keys keep their order."""
+    import itertools
+    p = args[0]
+    items = slice_items(vm, st, p)
+    vals = [vm.load(st, it) for it in items]
+    if len(vals) <= 1:
+        return done(vm, st, dest, ret_bb, UNIT)
+    if len(vals) > 3:
+        raise Unsupported('sort of more than 3 symbolic strings')
+    keys = [_sort_key(vm, st, v) for v in vals]
+    if all(isinstance(k.s, str) for k in keys):
+        order = sorted(range(len(vals)), key=lambda i: keys[i].s.encode())
+        for it, i in zip(items, order):
+            vm.store(st, it, vals[i])
+        return done(vm, st, dest, ret_bb, UNIT)
+    # symbolic keys: z3's `str.<` makes the sequence solver crawl (minutes, then unknown), and no kernel depends on *which*
+    # order the bytes induce - only on the same keys being ordered the same way every time.  The order is therefore an
+    # arbitrary total order: one Boolean per unordered pair of distinct key terms, reused whenever the pair is compared.
+    ords = vm.__dict__.setdefault('sort_order_vars', {})
+
+    def lt(a, b):
+        ka, kb = keys[a], keys[b]
+        if isinstance(ka.s, str) and isinstance(kb.s, str):
+            return mk_bool(ka.s.encode() < kb.s.encode() or (ka.s == kb.s and a < b))
+        sa, sb = ka.z().sexpr(), kb.z().sexpr()
+        if sa == sb:
+            return mk_bool(a < b)
+        first, second = sorted([sa, sb])
+        v = ords.setdefault((first, second), z3.Bool(f'sorts_before#{len(ords)}'))
+        return v if sa == first else z3.Not(v)
+    outs = []
+    for perm in itertools.permutations(range(len(vals))):
+        cs = [lt(perm[i], perm[j]) for i in range(len(perm)) for j in range(i + 1, len(perm))]
+        cond = simp(z3.And(*cs))
+        if not vm.feasible(st, cond):
+            continue
+        s2 = st.clone()
+        s2.pc.append(cond)
+        for it, i in zip(items, perm):
+            vm.store(s2, it, vals[i])
+        r = done(vm, s2, dest, ret_bb, UNIT)
+        if r is None:
+            outs.append(s2)
+        elif isinstance(r, list):
+            outs.extend(r)
+        else:
+            outs.append(_Finished(r))
+    return outs
 
 
 def s_string_push(vm, st, callee, args, dest, ret_bb, m):
@@ -1419,6 +1482,7 @@ TABLE = [
     (r'^core::str::<impl str>::starts_with::<&str>$', s_str_starts_with),
     (r'^std::string::String::push_str$', s_string_push_str),
     (r'^std::string::String::push$', s_string_push),
+    (r'^(core::)?slice::<impl \[.*\]>::(sort|sort_unstable)$', s_slice_sort),
     (r'^(std::|alloc::)?slice::<impl \[(std::string::String|&str)\]>::join::<&str>$', s_str_join),
     (r'^std::string::String::reserve$', s_unit),
     (r'^core::str::<impl str>::len$', s_str_len),
